@@ -161,36 +161,44 @@ Fixpoint b64_decode (s : bytes) : option bytes :=
 (* ------------------------------------------------------------------------------ whitespace (char::is_whitespace) *)
 (* number of bytes of the Unicode White_Space character at the head of a UTF-8 string, 0 if none:
    U+0009..000D, 0020, 0085, 00A0, 1680, 2000..200A, 2028, 2029, 202F, 205F, 3000 *)
+Definition ws1 (c : N) : bool := ((9 <=? c) && (c <=? 13)) || (c =? 32).
+Definition ws2 (c d : N) : bool := (c =? 194) && ((d =? 133) || (d =? 160)).
+Definition ws3 (c d e : N) : bool :=
+  ((c =? 225) && (d =? 154) && (e =? 128))
+  || ((c =? 226) && (d =? 128) && (((128 <=? e) && (e <=? 138)) || (e =? 168) || (e =? 169) || (e =? 175)))
+  || ((c =? 226) && (d =? 129) && (e =? 159))
+  || ((c =? 227) && (d =? 128) && (e =? 128)).
 Definition ws_head (s : bytes) : nat :=
   match s with
-  | c :: r =>
-      if ((9 <=? c) && (c <=? 13)) || (c =? 32) then 1%nat
-      else match c, r with
-           | 194, d :: _ => if (d =? 133) || (d =? 160) then 2%nat else 0%nat
-           | 225, 154 :: 128 :: _ => 3%nat
-           | 226, 128 :: e :: _ =>
-               if ((128 <=? e) && (e <=? 138)) || (e =? 168) || (e =? 169) || (e =? 175) then 3%nat else 0%nat
-           | 226, 129 :: 159 :: _ => 3%nat
-           | 227, 128 :: 128 :: _ => 3%nat
-           | _, _ => 0%nat
-           end
   | [] => 0%nat
+  | c :: r =>
+      if ws1 c then 1%nat
+      else match r with
+           | [] => 0%nat
+           | d :: r2 =>
+               if ws2 c d then 2%nat
+               else match r2 with
+                    | [] => 0%nat
+                    | e :: _ => if ws3 c d e then 3%nat else 0%nat
+                    end
+           end
   end.
 Definition starts_ws (s : bytes) : bool := negb (Nat.eqb (ws_head s) 0).
 (* the last character is whitespace: match the patterns backwards (UTF-8 is self-synchronising) *)
 Definition ends_ws (s : bytes) : bool :=
   match frev s with
-  | c :: r =>
-      if ((9 <=? c) && (c <=? 13)) || (c =? 32) then true
-      else match c, r with
-           | 133, 194 :: _ | 160, 194 :: _ => true
-           | 128, 154 :: 225 :: _ => true
-           | e, 128 :: 226 :: _ => ((128 <=? e) && (e <=? 138)) || (e =? 168) || (e =? 169) || (e =? 175)
-           | 159, 129 :: 226 :: _ => true
-           | 128, 128 :: 227 :: _ => true
-           | _, _ => false
-           end
   | [] => false
+  | c :: r =>
+      if ws1 c then true
+      else match r with
+           | [] => false
+           | d :: r2 =>
+               if ws2 d c then true
+               else match r2 with
+                    | [] => false
+                    | e :: _ => ws3 e d c
+                    end
+           end
   end.
 (* serializer_core.rs write_characters_or_cdata: has_outer_whitespace *)
 Definition has_outer_ws (s : bytes) : bool := starts_ws s || ends_ws s.
